@@ -10,6 +10,7 @@ package main
 
 import (
 	"go/constant"
+	"go/token"
 	"go/types"
 	"strings"
 
@@ -249,6 +250,64 @@ func checkRangeReentryAgreement(p *Program, r *Report, rule string) {
 					}
 					if loops == 0 {
 						continue // compared in another way: the rule above stands alone
+					}
+					// what is recorded in the loop is recorded where the two analyses were found to differ: a direct
+					// comparison of two computed values on the way to the store must have come out "different"
+					if recorded {
+						wrong := ""
+						for _, bb := range body.Blocks {
+							for _, ins := range bb.Instrs {
+								nx, ok := ins.(*ssa.Next)
+								if !ok || len(bb.Succs) != 2 {
+									continue
+								}
+								rg, ok := nx.Iter.(*ssa.Range)
+								if !ok {
+									continue
+								}
+								ld, ok := rg.X.(*ssa.UnOp)
+								if !ok {
+									continue
+								}
+								fa, ok := ld.X.(*ssa.FieldAddr)
+								if !ok || fieldName(fa.X.Type(), fa.Field) != kind {
+									continue
+								}
+								for _, vs := range visibleStores {
+									if !bb.Succs[0].Dominates(vs.Block()) {
+										continue
+									}
+									found := false
+									for _, gd := range GuardsOf(vs.Block()) {
+										if !bb.Succs[0].Dominates(gd.At) {
+											continue
+										}
+										switch c := gd.Cond.(type) {
+										case *ssa.BinOp:
+											if c.Op != token.EQL && c.Op != token.NEQ {
+												continue
+											}
+											_, k1 := c.X.(*ssa.Const)
+											_, k2 := c.Y.(*ssa.Const)
+											if k1 || k2 {
+												continue
+											}
+											if (c.Op == token.NEQ) == gd.Pol {
+												found = true
+											} else if wrong == "" {
+												wrong = "the difference is recorded where the two values were found equal"
+											}
+										case *ssa.Call, *ssa.UnOp:
+											found = true // a helper's verdict: its sense is not decided here
+										}
+									}
+									if !found && wrong == "" {
+										wrong = "a difference is recorded on a way that does not pass a comparison of the two analyses that came out different"
+									}
+								}
+							}
+						}
+						r.Check(wrong == "", rule, c+"#records-a-difference:"+kind, p.Pos(in.Pos()), "what the loop over "+kind+" records is recorded where the two analyses differ", wrong+": either every range body is refused, or a body whose second iteration needs other sanitizers is accepted")
 					}
 					r.Check(recorded, rule, c+"#records:"+kind, p.Pos(in.Pos()), "a difference found in the loop over "+kind+" is recorded where escapeBranch sees it", "the acceptance callback ranges over "+kind+" of the second analysis but records nothing it finds there: a range body whose second iteration needs other sanitizers (or another context-specific callee) is accepted with those of the first")
 				}
